@@ -14,7 +14,7 @@ N_QUICK = 3000
 N_THOROUGH = 12000
 THOROUGH_EXHAUSTIVE = True
 RULE = ('cases = corpus + random names built from segments {file/dir names inside the root, ".", "..", "", sibling '
-        'directory names, decoy names, NUL/backslash segments} joined by {"/", "\\\\", "//"} with optional absolute '
+        'directory names, directories spelling the root or an ancestor in another letter case, decoy names, NUL/backslash segments} joined by {"/", "\\\\", "//"} with optional absolute '
         'prefixes, x roots {absolute, trailing separator(s), containing "..", relative to several working directories, '
         '"/", "//", "", ".", the sibling, nonexistent} x GET/HEAD/Range/If-Modified-Since x forced-false '
         'exists/isfile/access; real calls to ombott.static_file over a real temporary tree with open() and the os/os.path '
@@ -59,6 +59,12 @@ def tree():
     put('base/root2/index.html', OUT_MARK)
     put('base/rootX/secret.txt', OUT_MARK)
     put('base/roo/secret.txt', OUT_MARK)
+    put('base/Root/secret.txt', OUT_MARK)             # the root's name in another letter case: a different directory
+    put('base/Root/index.html', OUT_MARK)
+    put('base/ROOT/sub/page.txt', OUT_MARK)
+    put('BASE/root/index.html', OUT_MARK)             # an ancestor's name in another letter case
+    put('BASE/root/secret.txt', OUT_MARK)
+    put('Base/ROOT/secret.txt', OUT_MARK)
     os.makedirs(os.path.join(t, 'base/work/d'), exist_ok=True)
     os.makedirs(os.path.join(t, 'base/root/emptydir'), exist_ok=True)
     _T = t
@@ -79,9 +85,10 @@ ROOTS = [
     ('/{T}/base/root', '{T}'), ('//{T}/base/root', '{T}'), ('{T}/base/nonexistent', '{T}'),
     ('{T}/base/root\\', '{T}'), ('{T}//base///root', '{T}'), ('{T}/base', '{T}'), ('{T}', '/'),
     ('../../../../../../../../../..', '{T}/base/work'), ('root', '/'),
+    ('{T}/base/Root', '{T}'), ('{T}/BASE/root', '{T}'), ('Root', '{T}/base'),
 ]
 SEGS_IN = ['index.html', 'sub', 'page.txt', 'deep', 'x.txt', 'a b.txt', 'emptydir', 'back\\slash.txt', 'root2', 'inner.txt']
-SEGS_OUT = ['root2', 'rootX', 'roo', 'root', 'base', 'secret.txt', 'decoy.txt', 'top.txt', 'work', 'etc', 'passwd']
+SEGS_OUT = ['root2', 'rootX', 'roo', 'root', 'base', 'Root', 'ROOT', 'BASE', 'Base', 'secret.txt', 'decoy.txt', 'top.txt', 'work', 'etc', 'passwd']
 SEGS_SPECIAL = ['.', '..', '..', '..', '', '...', '. .', '..\\', '\\..', 'a\x00b', '\x00', '%2e%2e', '.\\.']
 SEPS = ['/', '/', '/', '\\', '//', '/\\', '\\/']
 PREFIXES = ['', '', '', '/', '//', '///', '\\', '{T}/', '{T}/base/root2/', '/etc/passwd/', '{T}/base/root/', '../', '/../',
@@ -126,6 +133,11 @@ def corpus():
         mk(A, '{T}', 'index.html', deny=['isfile']),
         mk(A, '{T}', 'index.html', deny=['exists']),
         mk(A, '{T}', '../root2/secret.txt', method='HEAD', rng='bytes=0-1'),
+        # directories that differ from the root (or an ancestor) only in letter case are outside (seeded change C16/4)
+        mk(A, '{T}', '../Root/secret.txt'), mk(A, '{T}', '../Root/index.html'), mk(A, '{T}', '../ROOT/sub/page.txt'),
+        mk(A, '{T}', '../../BASE/root/index.html'), mk(A, '{T}', '../../Base/ROOT/secret.txt'),
+        mk('root', '{T}/base', '../Root/secret.txt'), mk('{T}/base/Root', '{T}', '../root/index.html'),
+        mk('{T}/BASE/root', '{T}', '../../base/root/index.html'),
     ]
     return out
 
@@ -135,7 +147,10 @@ GOOD = [['index.html'], ['sub', 'page.txt'], ['sub', 'deep', 'x.txt'], ['root2',
 ESCAPES = [['..', 'root2', 'secret.txt'], ['..', 'root2', 'index.html'], ['..', 'rootX', 'secret.txt'],
            ['..', 'roo', 'secret.txt'], ['..', 'decoy.txt'], ['..', '..', 'top.txt'], ['..', 'root', 'index.html'],
            ['..', 'root', 'sub', 'page.txt'], ['sub', '..', '..', 'root2', 'secret.txt'], ['..'], ['..', '..'],
-           ['..', 'root'], ['..', 'root2'], ['sub', '..'], ['sub', 'deep', '..', '..', '..', 'decoy.txt']]
+           ['..', 'root'], ['..', 'root2'], ['sub', '..'], ['sub', 'deep', '..', '..', '..', 'decoy.txt'],
+           ['..', 'Root', 'secret.txt'], ['..', 'Root', 'index.html'], ['..', 'ROOT', 'sub', 'page.txt'],
+           ['..', '..', 'BASE', 'root', 'index.html'], ['..', '..', 'BASE', 'root', 'secret.txt'],
+           ['..', '..', 'Base', 'ROOT', 'secret.txt'], ['sub', '..', '..', 'Root', 'secret.txt']]
 
 
 def mutate(rng, segs):
@@ -418,7 +433,7 @@ def oracle(case, obs):
 def nontrivial(case, obs):
     n = case['name']
     tricky = ('..' in n or n.startswith(('/', '\\', '{T}')) or '\\' in n
-              or any(s in n for s in ('root2', 'rootX', 'roo/', 'decoy', 'top.txt')))
+              or any(s in n for s in ('root2', 'rootX', 'roo/', 'decoy', 'top.txt', 'Root', 'ROOT', 'BASE', 'Base')))
     return tricky and 'gate' in obs
 
 
